@@ -346,9 +346,9 @@ Fixpoint map_values (f : string -> string) (n : node) : node :=
   end.
 Definition reader_tree (n : node) : node := map_values (fun v => xml_read10 (go_escape v)) n.
 
-(* the token view of a PARSED document (what Decoder.Token yields for the bytes): as Schema.view, without the CR
-   normalisation that Schema.view applies to model etree's raw re-serialisation — here the values are already the
-   reader's values *)
+(* the token view of a PARSED document (what Decoder.Token yields for the bytes): the values are the reader's values, nothing
+   is normalised on top -- the same function as Schema.view (xmlUnmarshalElement's canonical re-serialisation) and
+   Schema.view_direct; Schema.view_original (etree's default write settings) would normalise U+000D once more *)
 Fixpoint view_parsed (ns : list (string * string)) (n : node) : list xnode :=
   match n with
   | Elem sp tg attrs kids =>
